@@ -715,3 +715,182 @@ Theorem C06_extracted_corpus_cases_accepted :
   accepted_rules CoreOpsBridgeEx.case_C07_key_ownership_change_1 = true /\
   accepted_rules CoreOpsBridgeEx.case_C07_key_ownership_change_2 = true.
 Proof. exact CoreOpsBridgeEx.corpus_cases_accepted. Qed.
+
+(** ------------------------------------------------------------------ 8. cJSON_Duplicate under the history
+    theorem of the EXTRACTED interpreter
+
+    Section 7 leaves [CoreOps.ODuplicate] without counterpart: C11 describes the copy by a relation.
+    But the allocator of Heap.v is deterministic (a request obtains block [h_next], which then
+    advances by one), so with the allocator that never refuses the copy — the identities of its
+    blocks included — is a FUNCTION of the source and of the allocator counter
+    (CoreOpsBridgeDupDefs.v): [dupm t a] numbers the blocks of the copy of the source [t] from [a] in
+    the order of the C code's requests (node, valuestring, key unless cJSON_StringIsConst, then the
+    children left to right, each completely before the next) and returns the counter after the
+    call; it returns no copy when the walk meets a node that was cut off at CJSON_CIRCULAR_LIMIT
+    (the call then releases what it built and returns NULL; the counters have advanced by the
+    requests made so far).  The source of a recursive call is the unrolling
+    [unroll F CJSON_CIRCULAR_LIMIT t] of C11 (below a reference node: the chain its child pointer
+    designates), so the copy of a reference OWNS copies; a constant key is the same block.
+    [spec_dup S item recurse] is the resulting list model of the call on the abstract state;
+    [dup_okb S item] the rule: the item is NULL / a dead handle, or a node of the model's forest and
+    every reference node of the forest designates a node of the forest and every valuestring is
+    a readable string.  [stepRD] / [runRD] / [accepted_rulesD] extend [stepR] / [runR] /
+    [accepted_rules] by this step (CoreOpsBridgeDupHist.v); [accepted_rulesD] is what the
+    extracted driver evaluates to decide whether a generated history falls under the theorem. *)
+From CJ Require Import CoreRefineDupLoop CoreRefineDupUnroll CoreOpsBridgeDupDefs CoreOpsBridgeDupSim CoreOpsBridgeDupStep
+  CoreOpsBridgeDupHist.
+From CJ Require CoreOpsBridgeDupEx.
+
+(** THE EXACT SIMULATION (heap level, any closed heap; strengthens C11_copy_heap for the allocator
+    that never refuses).  [PostX h t h']: [h_next h' = (dupm t (h_next h)).2]; the request counter
+    advanced by as much as [h_next] ([ctr] = their difference); and EITHER [dupm] yields the copy
+    [tc] and [Done never h t tc h'] — the frame [Ext], [tc] encoded as a detached tree,
+    [copy_of h' t tc], nothing cut off — OR it yields no copy and [Ext [] [] h h'].
+    [resX t a] is [Some a] (the root of the copy is the first block requested) or NULL. *)
+Theorem C06_duplicate_exact : forall h t,
+  Closed h -> src_t h (Pos.to_nat (h_next h)) (Z.to_nat c_CJSON_CIRCULAR_LIMIT) t ->
+  exists h', cJSON_Duplicate never (Some (tid t)) true h = Ret (resX t (h_next h), h') /\ PostX h t h'.
+Proof. exact cJSON_DuplicateX. Qed.
+Print Assumptions C06_duplicate_exact.
+(** the non-recursive call copies the node alone; it cannot be refused *)
+Theorem C06_duplicate_flat_exact : forall h i d (ks : list positive),
+  Closed h -> src_node h (Pos.to_nat (h_next h)) i d ks ->
+  let tc := T (h_next h) (dup_data d (h_next h)) [] in
+  exists h',
+    cJSON_Duplicate never (Some i) false h = Ret (Some (h_next h), h') /\
+    h_next h' = after_key d (h_next h) /\ ctr h' = ctr h /\
+    Ext (nids (flat_t tc)) (sids (flat_t tc)) h h' /\ NoDup (nids (flat_t tc) ++ sids (flat_t tc)) /\
+    Chain_ok h' [tc] None /\ Forall ref_ok (flat_t tc) /\ data_copy h' d (dup_data d (h_next h)).
+Proof. exact cJSON_Duplicate_flatX. Qed.
+Print Assumptions C06_duplicate_flat_exact.
+(** the checker computes [dupm] of the unrolling in one pass with the early exit of the C code
+    (the unrolling of a cyclic structure is never built) *)
+Theorem C06_duplicate_one_pass : forall F k t a, dupw F k t a = dupm (unroll F k t) a.
+Proof. exact dupw_unroll. Qed.
+
+(** THE STEP OF THE LIST MODEL.  From every heap that represents [S], for every item the rule
+    accepts, recursive or not: the call returns (no error outcome) the pointer the model computes
+    from [S] alone, in a heap that represents the model's next state — after a success the forest
+    extended by the copy, the string heap by the copy's strings; after a refusal at the depth limit
+    the same forest and strings; in both cases the allocator counters the model predicts. *)
+Theorem C06_duplicate_step : forall h S item recurse,
+  Abs3 h S -> dup_okb S item = true ->
+  exists h', cJSON_Duplicate nv item recurse h = Ret ((spec_dup S item recurse).2, h') /\
+             Abs3 h' (spec_dup S item recurse).1.
+Proof. exact dup_step. Qed.
+Print Assumptions C06_duplicate_step.
+(** the returned item is a block the model owns (so the pushed handle denotes an owned block) *)
+Theorem C06_duplicate_result_owned : forall S item recurse x,
+  (spec_dup S item recurse).2 = Some x -> x ∈ owned (a_forest (spec_dup S item recurse).1).
+Proof. exact spec_dup_owned. Qed.
+
+(** ACCEPTANCE with duplicate calls: every other operation is decided as in section 7 … *)
+Theorem C06_extracted_acceptanceD_other : forall st S o, is_dup o = false -> stepRD st S o = stepR st S o.
+Proof. exact stepRD_other. Qed.
+(** … and a duplicate call is accepted exactly when [dup_okb] holds of the item its handle denotes;
+    result, next model state and next pools are then these *)
+Theorem C06_extracted_acceptanceD_dup : forall st S i recurse x st1 S1,
+  stepRD st S (CoreOps.ODuplicate i recurse) = Some (x, st1, S1) <->
+  dup_okb S (CoreOps.item_of st i) = true /\
+  x = CoreOps.RPtr (spec_dup S (CoreOps.item_of st i) recurse).2 /\
+  S1 = (spec_dup S (CoreOps.item_of st i) recurse).1 /\
+  st1 = sweepS S1 (CoreOps.push_item st (spec_dup S (CoreOps.item_of st i) recurse).2).
+Proof. exact stepRD_dup_spec. Qed.
+(** the extension is conservative: what section 7 accepts is accepted, with the same results *)
+Theorem C06_extracted_acceptanceD_conservative : forall ops st S y, runR st S ops = Some y -> runRD st S ops = Some y.
+Proof. exact runR_runRD. Qed.
+Theorem C06_extracted_accepted_rules_D : forall ops, accepted_rules ops = true -> accepted_rulesD ops = true.
+Proof. exact accepted_rules_D. Qed.
+
+(** ONE STEP of the extracted interpreter, duplicate calls included *)
+Theorem C06_extracted_stepD : forall h st S o x st1 S1,
+  Abs3 h S -> PoolsOK h st S -> stepRD st S o = Some (x, st1, S1) ->
+  exists h', CoreOps.run_op nv st o h = Ret ((x, st1), h') /\ Abs3 h' S1 /\ PoolsOK h' st1 S1.
+Proof. exact stepRD_sim. Qed.
+Print Assumptions C06_extracted_stepD.
+
+(** C06_history FOR THE EXTRACTED INTERPRETER, DUPLICATE CALLS INCLUDED.  Every history accepted by the
+    boolean checker ([runRD]: [stepRD] at every step) — duplicate calls, recursive or not, on any
+    item of the model's forest: roots, inner nodes, reference nodes, nodes with constant keys —
+    run by [CoreOps.run_ops] from the empty heap with empty pools: every call RETURNS (no memory-error
+    outcome), the per-call results [xs] and the final pools are those the list model computes, and
+    the heap reached represents the model's final state. *)
+Theorem C06_history_extractedD : forall ops xs st' S',
+  runRD CoreOps.empty_state S0 ops = Some (xs, st', S') ->
+  exists h', CoreOps.run_ops nv CoreOps.empty_state ops empty_heap = Ret ((xs, st'), h') /\ Abs3 h' S'.
+Proof. exact history_extractedD. Qed.
+Print Assumptions C06_history_extractedD.
+Theorem C06_history_extractedD_accepted : forall ops,
+  accepted_rulesD ops = true ->
+  exists xs st' S' h', runRD CoreOps.empty_state S0 ops = Some (xs, st', S') /\
+    CoreOps.run_ops nv CoreOps.empty_state ops empty_heap = Ret ((xs, st'), h') /\ Abs3 h' S'.
+Proof. exact history_extractedD_accepted. Qed.
+Theorem C06_history_extractedD_from_any_state : forall ops h st S xs st2 S2,
+  Abs3 h S -> PoolsOK h st S -> runRD st S ops = Some (xs, st2, S2) ->
+  exists h', CoreOps.run_ops nv st ops h = Ret ((xs, st2), h') /\ Abs3 h' S2 /\ PoolsOK h' st2 S2.
+Proof. exact runRD_sim. Qed.
+Theorem C06_history_extractedD_prefixes : forall ops1 st S ops2 xs st2 S2,
+  runRD st S (ops1 ++ ops2) = Some (xs, st2, S2) ->
+  exists xs1 st1 S1 xs2, runRD st S ops1 = Some (xs1, st1, S1) /\ runRD st1 S1 ops2 = Some (xs2, st2, S2) /\ xs = xs1 ++ xs2.
+Proof. exact runRD_app. Qed.
+
+(** the ledger of C07: after every accepted history the live library blocks are exactly the blocks
+    the model owns — the blocks of every copy among them —, deleting the remaining roots empties
+    the ledger, caller memory (constant keys, referenced strings) is live and bit-identical *)
+Theorem C07_balanced_extractedD : forall ops xs st' S',
+  runRD CoreOps.empty_state S0 ops = Some (xs, st', S') ->
+  exists h1 h2,
+    CoreOps.run_ops nv CoreOps.empty_state ops empty_heap = Ret ((xs, st'), h1) /\ Abs3 h1 S' /\
+    (forall b, b ∈ lib_live h1 <-> b ∈ owned (a_forest S')) /\
+    CoreOps.live_count h1 = length (owned (a_forest S')) /\
+    delete_roots (roots (a_forest S')) h1 = Ret (tt, h2) /\ lib_live h2 = ∅ /\ CoreOps.live_count h2 = 0%nat /\
+    (forall b, h_own h1 !! b = Some Foreign -> b ∈ h_live h1 -> b ∈ h_live h2 /\ h_str h2 !! b = h_str h1 !! b).
+Proof. exact ledger_extractedD. Qed.
+Print Assumptions C07_balanced_extractedD.
+
+(** non-vacuity: a 33-call history that builds an object with an owned key, a constant key, a string
+    reference and an array reference, duplicates it recursively and non-recursively, queries the
+    copies, deletes the source, duplicates the copy / a dead handle / NULL / an inner node, and
+    deletes everything, is accepted (and was not by section 7's checker) … *)
+Theorem C06_extractedD_nonvacuous_accepted :
+  accepted_rulesD CoreOpsBridgeDupEx.exD = true /\ accepted_rules CoreOpsBridgeDupEx.exD = false.
+Proof. exact (conj CoreOpsBridgeDupEx.exD_accepted CoreOpsBridgeDupEx.exD_not_accepted_before). Qed.
+(** … the list model's results, final pools, forest and allocator counters are these … *)
+Theorem C06_extractedD_nonvacuous_model :
+  match runRD CoreOps.empty_state S0 CoreOpsBridgeDupEx.exD with
+  | Some (xs, st, S') => Some (xs, st, a_forest S', nxt S', req S') | None => None end =
+  Some (CoreOpsBridgeDupEx.exD_results, CoreOpsBridgeDupEx.exD_pools, [], 43%positive, 37%nat).
+Proof. exact CoreOpsBridgeDupEx.exD_model. Qed.
+(** … the extracted interpreter, RUN ([vm_compute]) from the empty heap, returns exactly these … *)
+Theorem C06_extractedD_nonvacuous_run :
+  match CoreOps.run_ops nv CoreOps.empty_state CoreOpsBridgeDupEx.exD empty_heap with
+  | Ret ((xs, st), h) => Some (xs, st, CoreOps.live_count h, h_next h, h_req h)
+  | Err _ => None
+  end = Some (CoreOpsBridgeDupEx.exD_results, CoreOpsBridgeDupEx.exD_pools, 0%nat, 43%positive, 37%nat).
+Proof. exact CoreOpsBridgeDupEx.exD_run. Qed.
+(** … before the first deletion the heap reached IS the encoding of the model's state (link map,
+    data map, string heap, counters, size of the ledger; 23 owned blocks), and the copy in the
+    model has cleared reference bits, own strings, the shared constant key … *)
+Theorem C06_extractedD_nonvacuous_same_state :
+  match runRD CoreOps.empty_state S0 (take 21 CoreOpsBridgeDupEx.exD) with
+  | Some (_, _, S') => Some (CoreOpsBridgeDupEx.model_obs S') | None => None end =
+  match CoreOps.run_ops nv CoreOps.empty_state (take 21 CoreOpsBridgeDupEx.exD) empty_heap with
+  | Ret (_, h) => Some (CoreOpsBridgeDupEx.heap_obsD h) | Err _ => None end /\
+  match runRD CoreOps.empty_state S0 (take 21 CoreOpsBridgeDupEx.exD) with
+  | Some (_, _, S') => length (owned (a_forest S')) | None => 0%nat end = 23%nat.
+Proof. exact CoreOpsBridgeDupEx.exD_same_state. Qed.
+Theorem C06_extractedD_nonvacuous_copy :
+  match runRD CoreOps.empty_state S0 (take 14 CoreOpsBridgeDupEx.exD) with
+  | Some (_, _, S') => last (a_forest S') | None => None end = Some CoreOpsBridgeDupEx.exD_copy.
+Proof. exact CoreOpsBridgeDupEx.exD_copy_in_model. Qed.
+(** … and the depth limit: a cyclic structure built with the public API alone (an array that holds a
+    reference to its own chain) is accepted; its duplication is refused after 20001 requests; the
+    model computes NULL and the identities 20005, 20006 of the items created afterwards; what the
+    extracted interpreter returns follows FROM THE THEOREM *)
+Theorem C06_extractedD_nonvacuous_limit :
+  accepted_rulesD CoreOpsBridgeDupEx.exC = true /\
+  exists h', CoreOps.run_ops nv CoreOps.empty_state CoreOpsBridgeDupEx.exC empty_heap =
+               Ret ((CoreOpsBridgeDupEx.exC_results, CoreOpsBridgeDupEx.exC_pools), h') /\
+             lib_live h' = ∅ /\ h_next h' = 20007%positive /\ Z.of_nat (h_req h') = 20006.
+Proof. exact (conj CoreOpsBridgeDupEx.exC_accepted CoreOpsBridgeDupEx.exC_history). Qed.
+Print Assumptions C06_extractedD_nonvacuous_limit.
